@@ -149,4 +149,26 @@ theorem sound_any_anchor (cfg : Config) (hp : PlainPrintNA cfg) (hci : cfg.ci = 
   rw [this]
   exact Props.C03.generalises_self cfg t
 
+/-- **C01 in verbose mode, all inputs** (at least one anchor): every non-empty test case is matched in full by the
+pattern the regex parser builds, under the `(?x)` flag, from the verbose text -/
+theorem sound_verbose (cfg : Config) (hp : VerbosePrint cfg) (hci : cfg.ci = false) (env : Env)
+    (ws : List Str) (st : Stages) (h : regExpFrom cfg env ws = .ok st) (hseg : ∀ w ∈ ws, Grexv.SegOK env w)
+    (t : Str) (ht : t ∈ ws) (hne : t ≠ []) :
+    ∃ P, Spec.parse (fmtRegExp cfg st.finalAst) = some (⟨false, true⟩, P) ∧ Spec.fullMatch false P t = true := by
+  have hsc : ∀ c ∈ t, Scalar c := by
+    obtain ⟨h1, h2⟩ := hseg t ht
+    intro c hc
+    rw [← h2] at hc
+    obtain ⟨p, hp, hcp⟩ := List.mem_flatten.mp hc
+    exact (h1 p hp).2 c hcp
+  have hst : storedCases cfg env ws = ws := by simp [storedCases, hci]
+  have := classes_exact_verbose cfg hp env ws st h (by rw [hst]; exact hseg) (by rw [hst]; exact ⟨t, ht, hne⟩) t hsc
+  rw [hst, hci] at this
+  obtain ⟨P, hP, hm⟩ := this
+  refine ⟨P, hP, hm.mpr ⟨t, ht, hne, ?_⟩⟩
+  have : ∀ u : Str, u.map (convAtom cfg) = u.map (Props.C03.docAtom cfg) :=
+    fun u => List.map_congr_left (fun c _ => Props.C03.convAtom_documented cfg c)
+  rw [this]
+  exact Props.C03.generalises_self cfg t
+
 end Grexv.Props.C01
